@@ -588,7 +588,8 @@ class Runner:
         if not visits:
             return None
         info = {"target": target, "olds": [x for x in olds if x is not None],
-                "news": [x for x in news if x is not None], "visits": visits}
+                "news": [x for x in news if x is not None], "visits": visits,
+                "any_old": bool(olds), "any_new": bool(news)}
         self.check_selfreach(info)
         return info
 
@@ -1055,8 +1056,8 @@ class Runner:
                 status = "err Other"
             self.old_value = None
             pre_target = None if pre is None else pre["target"]
-            pre_olds = None if pre is None else bool(pre["olds"])
-            pre_news = None if pre is None else bool(pre["news"])
+            pre_olds = None if pre is None else pre["any_old"]
+            pre_news = None if pre is None else pre["any_new"]
             pre = None if pre is None else {"target": pre_target, "olds": pre_olds, "news": pre_news}
             evs = w.drain()
             dstr = " ".join(sorted(w.show_event(h, ev) for h, ev in evs))
@@ -1421,7 +1422,10 @@ def exhaustive_small(max_len, exprs=None):
         for pre in (["setl 0 kids 100 [1,2]"], ["setl 0 kids 100 [1,2]", "set 0 child 1", "set 1 child 2"]):
             for k in range(1, max_len + 1):
                 for hist in itertools.product(alphabet, repeat=k):
-                    yield "obs|3|N,N,N|" + ";".join(pre + [obs] + list(hist))
+                    # every assignment of a list allocates a container of its own
+                    ops = [o.replace(" 102 ", " %d " % (110 + 4 * p)).replace(" 104 ", " %d " % (112 + 4 * p))
+                           for p, o in enumerate(hist)]
+                    yield "obs|3|N,N,N|" + ";".join(pre + [obs] + ops)
 
 
 def failure_positions(maxlen):
